@@ -597,13 +597,30 @@ Section Step.
         { exists []. rewrite app_nil_r. reflexivity. }
         destruct HS as ([A B C0] & HM & HF & D).
         destruct (restore_other (rt_end last) s') as (Q1 & Q2 & Q3 & Q4 & Q5 & Q6 & Q7 & Q8 & Q9 & Q10 & Q11).
-        unfold setMemoized.
+        destruct (q_lr_memo_state (cQ c) || negb (has_state (cT c))); unfold setMemoized, dropMemoized;
         refine (conj _ (conj _ (conj _ (conj _ _)))).
-        * constructor; cbn.
+        1: { constructor; cbn.
           -- apply restore_pt_ok; auto.
           -- constructor; [|rewrite Q9; exact B]. unfold entry_ok. split; [exact L1|]. split; [|exact L2].
              intros Hb. apply (L3 Hb).
-          -- unfold cnt_ok in *. cbn. rewrite Q2. exact C0.
+          -- unfold cnt_ok in *. cbn. rewrite Q2. exact C0. }
+        5: { constructor; cbn.
+          -- apply restore_pt_ok; auto.
+          -- rewrite Q9. unfold memo_ok in *. apply Forall_forall. intros x Hx. apply filter_In in Hx as [Hx _].
+             revert x Hx. apply Forall_forall. exact B.
+          -- unfold cnt_ok in *. cbn. rewrite Q2. exact C0. }
+        all: try (eapply Mono_trans; [exact HM|]; apply same_mono_Mono; cbn; repeat split; auto; fail).
+        all: try (eapply Frame_trans; [exact HF|]; constructor; cbn; congruence).
+        all: try (unfold cur_off at 2; cbn; fold (cur_off (restore (rt_end last) s')); rewrite restore_off; exact L2).
+        all: try (intros Hb; destruct (L3 Hb) as [E F]; unfold cur_off at 1; cbn;
+          fold (cur_off (restore (rt_end last) s')); rewrite restore_off; split; [exact E|];
+          intros Hh; cbn; rewrite Q10; apply F; exact Hh).
+        all: fail.
+      + apply Hl.
+        { split; [apply HI|]. split; [unfold cur_off; cbn; lia|]. cbn. intros _. split; auto. }
+        { exists []. rewrite app_nil_r. reflexivity. }
+  Qed.
+(*OLD
         * eapply Mono_trans; [exact HM|]. apply same_mono_Mono. cbn. repeat split; auto.
         * eapply Frame_trans; [exact HF|]. constructor; cbn; congruence.
         * unfold cur_off at 2. cbn. fold (cur_off (restore (rt_end last) s')). rewrite restore_off. exact L2.
@@ -614,6 +631,7 @@ Section Step.
         { split; [apply HI|]. split; [unfold cur_off; cbn; lia|]. cbn. intros _. split; auto. }
         { exists []. rewrite app_nil_r. reflexivity. }
   Qed.
+OLD*)
 
   Lemma parseRuleWrap_spec n r s : I c s -> res_spec c s (parseRuleWrap c wrap n r s).
   Proof.
@@ -669,7 +687,7 @@ Section Step.
       destruct (rstack s); reflexivity. }
     destruct (memo_active c s) as [active s'|pv s'|]; [subst s'|subst s'|contradiction].
     2: apply PostP_refl; auto.
-    destruct active; [|apply parseExpr_spec; auto].
+    destruct (active && (q_memo_label (cQ c) || negb (scope_writes e))); [|apply parseExpr_spec; auto].
     destruct (getMemoized (KExpr (node_id e)) s) as [res|] eqn:Hg.
     - pose proof (memo_hit_spec _ _ _ HI Hg) as Hh.
       destruct (q_memo_nocharge (cQ c)); [exact Hh|].
